@@ -1,4 +1,5 @@
 import Fzf.Lemmas.Ansi
+import Fzf.Lemmas.AnsiScan
 /-
 C11 — `--ansi` strips escape sequences only and colours the right characters.
 Property theorems only.
@@ -14,6 +15,22 @@ theorem C11_plain_untouched (s : Bytes) (st : Option State) (idBase : Nat) (hp :
 /-- … and the scanner reports no sequence in it, from any position. -/
 theorem C11_plain_no_sequence (s : Bytes) (frm : Nat) (hp : Plain s) : nextEscape s frm = none :=
   nextEscape_plain s frm hp
+
+/-- **Whatever the bytes, a reported escape sequence is a proper piece of the line**: it is not
+    empty, it does not start before the position the scan started from (so text already handed
+    over is never taken back), and it ends inside the line — for invalid UTF-8, truncated or
+    nested sequences alike. This is what makes the stripping loop terminate and its offsets well
+    formed. -/
+theorem C11_scan_in_range (s : Bytes) (frm b e : Nat) (h : nextEscape s frm = some (b, e)) :
+    frm ≤ b ∧ b < e ∧ e ≤ s.size :=
+  nextEscape_range s frm b e h
+
+/-- **`--ansi` strips, it never invents**: for arbitrary bytes and any colour state carried over from
+    the previous line, the stripped text is a sublist of the line — no character is added, altered
+    or moved; what disappears is what the scanner reported. -/
+theorem C11_strip_only_removes (s : Bytes) (st : Option State) (idBase : Nat) :
+    (extractColor s st idBase).1.toList.Sublist s.toList :=
+  extractColor_sublist s st idBase
 
 /-- The abstract colouring assigns exactly one cell to every character of the text. -/
 theorem C11_paint_length (pen : Spec.Pen) (ops : List Spec.Op) :
